@@ -290,15 +290,16 @@ theorem drain_exact (p : Plan) (rp : RootParams) (hl : NoLimit p) :
       | .error a => drainQueue p rp fuel st = .error a
       | .ok rs' => ∃ w', drainQueue p rp fuel st = .ok { res := rs', walk := w' } ∧
           w'.errPaths = st.walk.errPaths ++ bfsFaults rp fuel st.walk.queue ∧
-          w'.errCount = st.walk.errCount + (bfsFaults rp fuel st.walk.queue).length
+          w'.errCount = st.walk.errCount + (bfsFaults rp fuel st.walk.queue).length ∧
+          (∀ i, i ∈ w'.visited → i ∈ st.walk.visited ∨ i ∈ qInos st.walk.queue)
   | 0, st, _, _, _ => by
     simp only [bfsEvents, foldReport, drainQueue, bfsFaults]
-    exact ⟨st.walk, rfl, by simp, by simp⟩
+    exact ⟨st.walk, rfl, by simp, by simp, fun i h => Or.inl h⟩
   | fuel + 1, st, hg, hnd, hfr => by
     cases hq : st.walk.queue with
     | nil =>
       simp only [bfsEvents, foldReport, drainQueue, hq, bfsFaults]
-      exact ⟨st.walk, rfl, by simp, by simp⟩
+      exact ⟨st.walk, rfl, by simp, by simp, fun i h => Or.inl h⟩
     | cons it q =>
       rw [hq] at hg hnd hfr
       simp only [bfsEvents, bfsFaults]
@@ -331,7 +332,32 @@ theorem drain_exact (p : Plan) (rp : RootParams) (hl : NoLimit p) :
             { res := r1, walk := afterKids rp it.path it.canon (calcDepth it.canon - rp.base + 1) { st.walk with queue := q } it.kids }
             hgq i3 i4
           simp only [afterKids] at ih ⊢
-          exact ih
+          cases hf2 : foldReport p rp r1 (bfsEvents rp fuel (q ++ kidsItems rp it.path it.canon (calcDepth it.canon - rp.base + 1) it.kids)) with
+          | error a => rw [hf2] at ih; exact ih
+          | ok rs' =>
+            rw [hf2] at ih
+            obtain ⟨w', h1, h2, h3, h4⟩ := ih
+            refine ⟨w', h1, h2, h3, ?_⟩
+            intro i hi
+            have hsplit := inodes_split it.kids
+            rcases h4 i hi with h | h
+            · rcases List.mem_append.mp h with h' | h'
+              · exact Or.inl h'
+              · right
+                rw [topInos_eq] at h'
+                split at h'
+                · exact List.mem_append.mpr (Or.inl (hsplit.mem_iff.mpr (List.mem_append.mpr (Or.inl h'))))
+                · simp at h'
+            · right
+              have hqa : qInos (q ++ kidsItems rp it.path it.canon (calcDepth it.canon - rp.base + 1) it.kids) =
+                  qInos q ++ qInos (kidsItems rp it.path it.canon (calcDepth it.canon - rp.base + 1) it.kids) := by
+                simp [qInos, List.flatMap_append]
+              rw [hqa, qInos_items] at h
+              rcases List.mem_append.mp h with h' | h'
+              · exact List.mem_append.mpr (Or.inr h')
+              · split at h'
+                · exact List.mem_append.mpr (Or.inl (hsplit.mem_iff.mpr (List.mem_append.mpr (Or.inr h'))))
+                · simp at h'
       · have hlf : it.listable = false := by cases h : it.listable <;> simp_all
         simp only [hlf, Bool.not_false, if_true, Bool.false_eq_true, if_false]
         have hgq : QGood q := fun x hx => hg x (by simp [hx])
@@ -345,10 +371,14 @@ theorem drain_exact (p : Plan) (rp : RootParams) (hl : NoLimit p) :
         | error a => rw [hf] at ih; simpa using ih
         | ok rs' =>
           rw [hf] at ih
-          obtain ⟨w', h1, h2, h3⟩ := ih
-          refine ⟨w', h1, ?_, ?_⟩
+          obtain ⟨w', h1, h2, h3, h4⟩ := ih
+          refine ⟨w', h1, ?_, ?_, ?_⟩
           · rw [h2]; simp [List.append_assoc]
           · rw [h3]; simp; omega
+          · intro i hi
+            rcases h4 i hi with h | h
+            · exact Or.inl h
+            · exact Or.inr (List.mem_append.mpr (Or.inr h))
 
 /-! ### the level-order specification without fuel -/
 
